@@ -4,3 +4,4 @@ import X86Model.Model.Addr
 import X86Model.Model.Page
 import X86Model.Spec.Canon
 import X86Model.Properties.C05
+import X86Model.Properties.C18
